@@ -4,6 +4,7 @@ import (
 	"errors"
 	"fmt"
 	"reflect"
+	"strconv"
 )
 
 // Recipe is a JSON-serialisable description of a Go value; Build turns it
@@ -71,6 +72,30 @@ func (r *PlainRanger) Range() (reflect.Value, reflect.Value, bool) {
 	return reflect.Value{}, v, false
 }
 func (r *PlainRanger) ProvidesIndex() bool { return false }
+
+// Level is a numeric kind with a String method: rendered through String(), so it must be escaped.
+type Level int
+
+func (l Level) String() string { return "<lvl&" + strconv.Itoa(int(l)) + ">" }
+
+// Code is a numeric kind that is an error.
+type Code uint8
+
+func (c Code) Error() string { return "code '" + strconv.Itoa(int(c)) + "' <failed>" }
+
+// StackRanger is a custom Ranger whose underlying kind is a slice: it must be ranged through its
+// own Range method (last in, first out, no index), not as a plain slice.
+type StackRanger []string
+
+func (s *StackRanger) Range() (reflect.Value, reflect.Value, bool) {
+	if len(*s) == 0 {
+		return reflect.Value{}, reflect.Value{}, true
+	}
+	v := (*s)[len(*s)-1]
+	*s = (*s)[:len(*s)-1]
+	return reflect.Value{}, reflect.ValueOf(v), false
+}
+func (s *StackRanger) ProvidesIndex() bool { return false }
 
 func ints(xs []int64) []int {
 	out := make([]int, len(xs))
@@ -215,6 +240,13 @@ func Build(r Recipe) interface{} {
 		return &Strg{S: r.S}
 	case "error":
 		return errors.New(r.S)
+	case "level":
+		return Level(r.I)
+	case "code":
+		return Code(r.I)
+	case "stack-ranger":
+		st := StackRanger(append([]string{}, r.Ss...))
+		return &st
 	case "user":
 		u := User{Name: r.S, Age: int(r.I), Tags: append([]string(nil), r.Ss...)}
 		if len(r.Elems) > 0 {
